@@ -163,20 +163,20 @@ theorem replay_sound {ds : Nat} {prog : Prog} {t : Option Path} {ops : List Op} 
     have := ih sp sm s' hsim hds hff hfs hwf hpc htc hfa.2 h2
     unfold SoundConcl at this ⊢
     rw [hrun]; exact this
-  | writeSome b k p ops r w _ ih =>
+  | writeSome b mt k p ops r w _ ih =>
     intro sp s s' hsim hds hff hfs hwf hpc htc hfa hr
     have hpcl : p ∈ sp.claimedFiles := by rw [hsim.claimedFiles]; exact htc p rfl
-    let sp' : SpecSt := { sp with pending := (p, b, sp.clock) :: sp.pending, clock := sp.clock + 1 }
+    let sp' : SpecSt := { sp with pending := (p, b, mt.getD sp.clock) :: sp.pending, clock := sp.clock + 1 }
     have hsim' : SpecSt.Sim sp' s.sp := ⟨hsim.fs, hsim.cacheFile, hsim.dirSize, hsim.claimedFiles,
       hsim.claimedSubs, hsim.inProg, hsim.outputs, hsim.createdDirs, hsim.failFiles, hsim.failSubs⟩
     have hpc' : PendClaimed sp' := by
       intro q hq
       have hne : p ≠ q := fun e => hq (e ▸ hpcl)
-      show pendingFind ((p, b, sp.clock) :: sp.pending) q = none
+      show pendingFind ((p, b, mt.getD sp.clock) :: sp.pending) q = none
       rw [pendingFind_cons_ne _ _ _ _ _ hne]; exact hpc q hq
     have := ih sp' s s' hsim' hds hff hfs hwf hpc' htc hfa hr
-    have hrun : run (.write b k) (some p) sp = run k (some p) sp' := by
-      show _ = run k (some p) { sp with pending := (p, b, sp.clock) :: sp.pending, clock := sp.clock + 1 }
+    have hrun : run (.write b mt k) (some p) sp = run k (some p) sp' := by
+      show _ = run k (some p) { sp with pending := (p, b, mt.getD sp.clock) :: sp.pending, clock := sp.clock + 1 }
       simp only [run]
     unfold SoundConcl at this ⊢
     rw [hrun]
@@ -188,14 +188,14 @@ theorem replay_sound {ds : Nat} {prog : Prog} {t : Option Path} {ops : List Op} 
     cases w with
     | none =>
       simp at hc; subst hc
-      exact ⟨sp.clock, (by rw [hnone rfl]; exact pendingFind_cons_self _ _ _ _)⟩
+      exact ⟨mt.getD sp.clock, (by rw [hnone rfl]; exact pendingFind_cons_self _ _ _ _)⟩
     | some c' =>
       simp at hc; subst hc
       exact hsome c' rfl
-  | writeNone b k ops r w _ ih =>
+  | writeNone b mt k ops r w _ ih =>
     intro sp s s' hsim hds hff hfs hwf hpc htc hfa hr
     have := ih sp s s' hsim hds hff hfs hwf hpc htc hfa hr
-    have hrun : run (.write b k) none sp = run k none sp := by simp only [run]
+    have hrun : run (.write b mt k) none sp = run k none sp := by simp only [run]
     unfold SoundConcl at this ⊢
     rw [hrun]
     exact ⟨this.1, this.2.1, this.2.2.1, fun p hp => by cases hp⟩
@@ -655,8 +655,8 @@ theorem faithful_of_hash {ds : Nat} {prog : Prog} {t : Option Path} {ops : List 
         subst hc
         exact cmpResult_hash_inj _ _ _ _ he
       | _ => simp
-  | writeSome _ _ _ _ _ _ _ ih => exact ih
-  | writeNone _ _ _ _ _ _ ih => exact ih
+  | writeSome _ _ _ _ _ _ _ _ ih => exact ih
+  | writeNone _ _ _ _ _ _ _ ih => exact ih
   | bfSetupFail _ _ _ _ _ _ _ _ _ _ _ _ _ ih =>
     intro h
     simp only [Op.allHashL, Bool.and_eq_true] at h
